@@ -5,6 +5,9 @@ pub mod impls;
 pub mod refmodel;
 pub mod p_short;
 pub mod p_ints;
+pub mod ops;
+pub mod bfs;
+pub mod p_factory;
 
 use engine::{CheckResult, Ctx, Report};
 use serde_json::Value;
@@ -16,6 +19,7 @@ pub fn run_property(ctx: &Ctx) -> Option<Report> {
         "C03" => Some(p_short::run_c03(ctx)),
         "C04" => Some(p_ints::run_ints(ctx, p_ints::Mode::C04)),
         "C05" => Some(p_ints::run_ints(ctx, p_ints::Mode::C05)),
+        "C06" => Some(p_factory::run_c06(ctx)),
         _ => None,
     }
 }
@@ -27,6 +31,7 @@ pub fn replay_case(prop: &str, sub: &str, case: &Value) -> Option<CheckResult> {
         "C03" => p_short::replay_c03(sub, case),
         "C04" => p_ints::replay_ints(p_ints::Mode::C04, sub, case),
         "C05" => p_ints::replay_ints(p_ints::Mode::C05, sub, case),
+        "C06" => p_factory::replay_c06(sub, case),
         _ => None,
     }
 }
